@@ -37,6 +37,7 @@ def expand_krylov_space(self, f, tol, ncv, hermitian, V, H=None, **kwargs):
             else:
                 H[(j - 1, j)] = H[(j, j - 1)]
                 w = w.add(V[j - 1], V[j], amplitudes=[1, -H[(j - 1, j)], -H[(j, j)]], **kwargs)
+        w = w.add(*V, amplitudes=[1] + [-V[i].vdot(w) for i in range(j + 1)], **kwargs)  # re-orthogonalization
         H[(j + 1, j)] = w.norm()
         if H[(j + 1, j)] < tol:
             happy = True
